@@ -1,7 +1,7 @@
 (* Props/C10.v — Fault transparency: transient upstream/storage errors never change the result.
    Only statements, each closed by [exact]; proofs live in Lemmas/. *)
 From Model Require Import Examples Sync SitesSpec.
-From Lemmas Require Import SyncLemmas RestartLemmas SitesLemmas.
+From Lemmas Require Import SyncLemmas RestartLemmas SitesC10.
 From Gen Require Import Consts Sites.
 From Coq Require Import String.
 Open Scope list_scope.
